@@ -93,8 +93,14 @@ def gen_case(ch):
     target = "srs" if ch.weighted([17, 3], "target") == 0 else "fdepsd"
     rng = ch.data_rng()
     desc = {"target": target}
+    # "dispatch-shape" runs: tiny signal, many (worker count, frequency count)
+    # pairs - what a chunked/blocked dispatch or a mis-sized pool depends on
+    shape_run = ch.flip(1, 5, "dispatch_shape_run")
+    desc["dispatch_shape_run"] = shape_run
     if target == "srs":
         lc = ch.weighted([30, 3, 3, 3, 20, 1], "lenclass")
+        if shape_run:
+            lc = 0
         large = lc == 5
         if lc == 0:
             n = 4 + ch.draw(37, "n")
@@ -120,7 +126,15 @@ def gen_case(ch):
         layout = ch.weighted([6, 2, 2, 2], "layout")
         one_d = h == 1 and ch.flip(1, 2, "1d")
         sr = SRS_[ch.draw(len(SRS_), "sr")]
-        lf = 1 + ch.draw(4 if large else 16, "LF")
+        if large:
+            lf = 1 + ch.draw(4, "LF")
+        else:
+            # many frequencies relative to the worker count matter for any chunked /
+            # blocked dispatch: a share of runs has up to 130 of them
+            lfc = ch.weighted([10, 2, 1], "LFclass")
+            lf = 1 + ch.draw(16, "LF") if lfc == 0 else 17 + ch.draw(48, "LF") if lfc == 1 else 65 + ch.draw(66, "LF")
+            if shape_run:
+                lf = 1 + ch.draw(130, "LFshape")
         freq = rng.uniform(sr / 200, 0.6 * sr, lf)
         if ch.flip(1, 8, "f0"):
             freq[ch.draw(lf, "f0at")] = 0.0
@@ -140,6 +154,10 @@ def gen_case(ch):
         q = QS[ch.draw(len(QS), "Q")]
         par = "auto" if (large or ch.flip(1, 40, "auto")) else "yes"
         maxcpu = MAXCPU[ch.draw(len(MAXCPU), "maxcpu")]
+        if shape_run:
+            maxcpu = 1 + ch.draw(16, "maxcpu_shape")
+            roll = "none"
+            desc["_cpu_hint"] = 64
         sr_none = n == 1 and ic != "zero" and ch.flip(1, 2, "sr_none")
 
         def build():
@@ -181,17 +199,20 @@ def gen_case(ch):
         return target, build, par, desc, est_lines, base, freq
 
     # fdepsd
-    n = 200 + ch.draw(2800, "n")
+    manyf = shape_run or ch.flip(1, 4, "fde_many_freq")
+    n = 200 + ch.draw(400 if manyf else 2800, "n")
     base, kind = _signal(ch, rng, n, 1)
     base = base[:, 0] + 0.05 * rng.standard_normal(n)
     sr = [1000.0, 200.0, 500.0][ch.draw(3, "sr")]
-    lf = 1 + ch.draw(8, "LF")
+    lf = 9 + ch.draw(40, "LF") if manyf else 1 + ch.draw(8, "LF")
+    if shape_run:
+        lf = 1 + ch.draw(64, "LFshape")
     freq = rng.uniform(sr / 100, 0.45 * sr, lf)
     if ch.flip(1, 3, "fsorted"):
         freq = np.sort(freq)
     if lf > 1 and ch.flip(1, 8, "frep"):
         freq[ch.draw(lf, "frep_to")] = freq[ch.draw(lf, "frep_from")]
-    nbins = [5, 1, 2, 3, 10, 30, 300][ch.weighted([6, 1, 2, 3, 4, 2, 1], "nbins")]
+    nbins = [5, 1, 2, 3, 10, 30, 300][ch.weighted([6, 1, 2, 3, 0, 0, 0] if manyf else [6, 1, 2, 3, 4, 2, 1], "nbins")]
     resp = ["absacce", "pvelo"][ch.draw(2, "resp")]
     q = QS[ch.draw(len(QS), "Q")]
     t0 = [60.0, 1.0, 600.0][ch.draw(3, "T0")]
@@ -203,6 +224,9 @@ def gen_case(ch):
     verbose = ch.flip(1, 6, "verbose")
     par = "yes"
     maxcpu = MAXCPU[ch.draw(len(MAXCPU), "maxcpu")]
+    if shape_run:
+        maxcpu = 1 + ch.draw(16, "maxcpu_shape")
+        desc["_cpu_hint"] = 64
     dt = ch.weighted([8, 2], "dtype")
     if dt == 1:
         base = base.astype(np.float32)
@@ -222,9 +246,11 @@ def gen_case(ch):
     return target, build, par, desc, est_lines, base, freq
 
 
-def gen_sched_cfg(ch, target):
+def gen_sched_cfg(ch, target, cpu_hint=None):
     cfg = {}
     cfg["cpu_count"] = CPUS[ch.draw(len(CPUS), "cpu_count")]
+    if cpu_hint:
+        cfg["cpu_count"] = cpu_hint
     cfg["preempt"] = [(0, 1), (1, 20), (3, 10), (1, 1)][ch.weighted([1, 2, 4, 3], "preempt_cfg")]
     cfg["sticky"] = [1, 4, 16, 1][ch.draw(4, "sticky")]
     cfg["weights"] = [[4], [1, 4, 16], [1, 16]][ch.draw(3, "speeds")]
@@ -317,7 +343,7 @@ def _describe(r):
 def run(ch, tr, st):
     srs_mod, fdepsd_mod, cc_mod = modules()
     cases = [gen_case(ch)]
-    cfg = gen_sched_cfg(ch, cases[0][0])
+    cfg = gen_sched_cfg(ch, cases[0][0], cases[0][3].get("_cpu_hint"))
     # a parent process may call the functions several times: module globals and
     # anything else that outlives a call are shared by the calls of one run
     extra = ch.weighted([6, 2, 1], "extra_calls")
